@@ -113,8 +113,6 @@ func (cache *cmdCache) Shutdown() {
 func write(w io.WriteCloser, target *core.BuildTarget, files []string, cancel context.CancelFunc) {
 	defer w.Close()
 	tw := tar.NewWriter(w)
-
-	defer tw.Close()
 	outDir := target.OutDir()
 
 	for _, out := range files {
@@ -122,11 +120,13 @@ func write(w io.WriteCloser, target *core.BuildTarget, files []string, cancel co
 			return storeFile(tw, name)
 		}); err != nil {
 			log.Warning("Error sending artifacts to command-driven cache: %s", err)
-			// kill the running command
+			// kill the running command. We deliberately don't close the tar writer here: without its
+			// end-of-archive marker whatever the command has already taken in can never be read back as complete.
 			cancel()
 			return
 		}
 	}
+	tw.Close()
 }
 
 func newCmdCache(config *core.Configuration) *cmdCache {
